@@ -1,5 +1,127 @@
 import PkVerif.Drv.Common
-/-! `pkmodel-c17`: stub (property not built yet). -/
+import PkVerif.Model.Share
+import PkVerif.Gen.C17
+/-!
+`pkmodel-c17`: the share handler model and the guard table behind a line protocol.
+
+    blob <id> <extra> share <target|-> <0|1 transitive> <expires|->
+    blob <id> <extra> file|bytes <parts>
+    blob <id> <extra> dir <entries>
+    blob <id> <extra> set <members> <mergeSets>
+    blob <id> <extra> other|raw <mentions>            -> ok
+    del <id> <target>          a delete claim <id> (an `other` blob) of <target>      -> ok
+    get <METHOD> <0|1 assemble> <id|x> <via>          -> <errorCode> <status|*>
+    guard <htype> <0|1 internal>                      -> deny|auth|camli|open
+    access <htype> <0|1 internal> <0|1 credentials> … -> 401|pass|handler
+    fixed <path>                                      -> auth|open|none
+
+ids are decimal numbers, lists are comma separated, `-` is the empty list / absent value, `x` is a
+malformed ref. The clock is fixed at 1000.
+-/
 namespace Pk.Drv.C17
-def machine : Machine := { σ := Unit, init := (), step := fun s _ => (s, "bad-op") }
+open Pk Pk.Share
+
+structure St where
+  store : List (Nat × Stored) := []
+  dels : List (Nat × Nat) := []   -- (deleter, target)
+
+def lookup (l : List (Nat × Stored)) (r : Nat) : Option Stored :=
+  match l with
+  | [] => none
+  | (k, v) :: rest => if k == r then some v else lookup rest r
+
+/-- pkg/index/index.go:779 `isDeleted`: deleted iff some delete claim of it is not itself deleted
+(fuel = number of delete claims + 1; deleters are always newer blobs than their targets) -/
+def isDeleted (dels : List (Nat × Nat)) : Nat → Nat → Bool
+  | 0, _ => false
+  | fuel + 1, r => dels.any (fun p => p.2 == r && !isDeleted dels fuel p.1)
+
+def env (s : St) : Env :=
+  ⟨lookup s.store, isDeleted s.dels (s.dels.length + 1), 1000⟩
+
+def natArg (w : String) : Option Nat := if w.isEmpty then none else w.toNat?
+
+def listArg (w : String) : Option (List Nat) :=
+  if w == "-" then some [] else (w.splitOn ",").mapM natArg
+
+def optArg (w : String) : Option (Option Nat) :=
+  if w == "-" then some none else (natArg w).map some
+
+def boolArg (w : String) : Option Bool :=
+  if w == "0" then some false else if w == "1" then some true else none
+
+/-- a ref in a request: `x` = does not parse -/
+def reqRef (w : String) : Option (Option Nat) :=
+  if w == "x" then some none else (natArg w).map some
+
+def viaArg (w : String) : Option (List (Option Nat)) :=
+  if w == "-" then some [] else (w.splitOn ",").mapM reqRef
+
+def blobArg : List String → Option Blob
+  | ["share", t, tr, ex] => do
+    let t ← optArg t; let tr ← boolArg tr; let ex ← optArg ex
+    pure (.share t tr ex)
+  | ["file", ps] => (listArg ps).map .file
+  | ["bytes", ps] => (listArg ps).map .bytes
+  | ["dir", e] => (natArg e).map .directory
+  | ["set", ms, subs] => do
+    let ms ← listArg ms; let subs ← listArg subs
+    pure (.staticSet ms subs)
+  | ["other", ms] => (listArg ms).map .other
+  | ["raw", ms] => (listArg ms).map .raw
+  | _ => none
+
+def isMethod (m : String) : Bool :=
+  ["GET", "HEAD", "POST", "PUT", "DELETE", "PATCH", "OPTIONS", "CONNECT", "TRACE"].contains m
+
+def showOutcome (st : Store) (o : Outcome) : String :=
+  let code := match o with
+    | .refused c => c.str
+    | _ => ErrorCode.noError.str
+  let status := match httpStatus st o with
+    | some n => toString n
+    | none => "*"
+  code ++ " " ++ status
+
+def htypeArg (w : String) : HType :=
+  if w.startsWith Gen.storageTypePrefix then .storage (w.drop Gen.storageTypePrefix.length).toString
+  else .handler w
+
+def showGuard : Guard → String
+  | .deny => "deny" | .auth => "auth" | .camliAuth => "camli" | .open_ => "open"
+
+def step (s : St) (ws : List String) : St × String :=
+  match ws with
+  | "blob" :: id :: extra :: rest =>
+    (match natArg id, listArg extra, blobArg rest with
+     | some id, some extra, some b => ({ s with store := (id, ⟨b, extra⟩) :: s.store }, "ok")
+     | _, _, _ => (s, "bad-op"))
+  | ["del", id, target] =>
+    (match natArg id, natArg target with
+     | some id, some t =>
+       ({ store := (id, ⟨.other [t], []⟩) :: s.store, dels := (id, t) :: s.dels }, "ok")
+     | _, _ => (s, "bad-op"))
+  | ["get", m, asm, path, via] =>
+    (match isMethod m, boolArg asm, reqRef path, viaArg via with
+     | true, some asm, some path, some via =>
+       let e := env s
+       (s, showOutcome e.store (serveHTTP e (m == "GET" || m == "HEAD") path via asm))
+     | _, _, _, _ => (s, "bad-op"))
+  | ["guard", ht, internal] =>
+    (match boolArg internal with
+     | some i => (s, showGuard (installedGuard Gen.authHandlerTypes (htypeArg ht) i))
+     | none => (s, "bad-op"))
+  | "access" :: ht :: internal :: creds :: _ =>
+    (match boolArg internal, boolArg creds with
+     | some i, some c =>
+       (s, match guardPasses (installedGuard Gen.authHandlerTypes (htypeArg ht) i) c with
+           | some true => "pass" | some false => "401" | none => "handler")
+     | _, _ => (s, "bad-op"))
+  | ["fixed", path] =>
+    (s, match Gen.fixedEndpoints.find? (fun p => p.1 == path) with
+        | some (_, true) => "auth" | some (_, false) => "open" | none => "none")
+  | _ => (s, "bad-op")
+
+def machine : Machine := { σ := St, init := {}, step := step }
+
 end Pk.Drv.C17
